@@ -103,8 +103,10 @@ type cmFilter struct{}
 func (cmFilter) OnCreated(types.ClusterConfigFactoryCb, types.ClusterHostFactoryCb) {}
 
 var (
-	envOnce      sync.Once
-	upstreamAddr string
+	envOnce          sync.Once
+	upstreamAddr     string
+	upstreamAddrH2   string
+	upstreamAddrBolt string
 	clusterMng   types.ClusterManager
 	lnSeq        int64
 )
@@ -175,6 +177,7 @@ func initEnv() {
 		go (&http.Server{Handler: http.HandlerFunc(upstreamHandler)}).Serve(ul)
 		// HTTP/2 (prior knowledge) upstream, same handler
 		u2 := listen()
+		upstreamAddrH2 = u2.Addr().String()
 		go func() {
 			h2s := &http2.Server{}
 			for {
@@ -187,6 +190,7 @@ func initEnv() {
 		}()
 		// bolt upstream
 		ub := listen()
+		upstreamAddrBolt = ub.Addr().String()
 		go serveBoltUpstream(ub)
 
 		mk := func(name, addr string) v2.Cluster {
